@@ -125,6 +125,7 @@ pub fn positive_int(input: &mut LineReader, what: &str) -> Parsed<NonZeroU64, Pa
     if matches!(input.reader.request_byte(), Some(b'0')) {
         return Fallthrough;
     }
+    input.reader.set_mark();
     uint(input)
         .map_err(|value| exceeds_count(input, what, &value))
         .map(|width| NonZeroU64::new(width).unwrap())
@@ -132,6 +133,7 @@ pub fn positive_int(input: &mut LineReader, what: &str) -> Parsed<NonZeroU64, Pa
 
 #[inline]
 pub fn nonnegative_int(input: &mut LineReader, what: &str) -> Parsed<u64, ParseError> {
+    input.reader.set_mark();
     uint(input).map_err(|value| exceeds_count(input, what, &value))
 }
 
